@@ -31,6 +31,8 @@ func runC16(p *Prog, r *Report) {
 	c16Recursion(p, r)
 	c16Asserts(p, r)
 	c16Loops(p, r)
+	c16IndexInRange(p, r)
+	c16EdgeFilter(p, r)
 	c16ResolveOrder(p, r)
 	c16DegreeSymmetry(p, r)
 }
@@ -1524,4 +1526,429 @@ func c16DegreeSymmetry(p *Prog, r *Report) {
 	if n == 0 {
 		r.Undec(rule, "resolved:degree-table", "-", "no in-degree table with matching increments and decrements found in the resolver (the cycle detector changed shape)")
 	}
+}
+
+// ---- R16.7 variable indexes stay inside the slice ----
+
+// c16IndexInRange: every s[i] with a non-constant i in the schema packages is in range by construction: i is the index of
+// a range loop over s itself, or a dominating comparison bounds i by len(s) (directly, through min(len(s), …), or through a
+// length equality with the slice that i ranges over), or i is len(s)-1 under len(s) > 0. Anything else is reported: an index
+// that ranges over one slice and is applied to another panics as soon as the other is shorter.
+func c16IndexInRange(p *Prog, r *Report) {
+	const rule = "R16.7-index-in-range"
+	n := 0
+	for _, fn := range p.Funcs {
+		if !c16Pkgs[fnPkgPath(fn)] || len(fn.Blocks) == 0 {
+			continue
+		}
+		loops := loopsOf(fn)
+		ord := map[string]int{}
+		forEachInstr(fn, func(in ssa.Instruction) {
+			var seq, idx ssa.Value
+			switch x := in.(type) {
+			case *ssa.IndexAddr:
+				seq, idx = x.X, x.Index
+			case *ssa.Index:
+				seq, idx = x.X, x.Index
+			default:
+				return
+			}
+			switch seq.Type().Underlying().(type) {
+			case *types.Slice, *types.Basic:
+			default:
+				return // arrays and pointers to arrays: the compiler checks constant indexes, varargs packing is generated
+			}
+			if _, isK := constInt(idx); isK {
+				return // constant indexes are R16.4/R10.4 territory (length tests)
+			}
+			n++
+			base := fnQual(fn) + ":" + describeVal(seq) + "[" + describeVal(idx) + "]"
+			ord[base]++
+			construct := base
+			if ord[base] > 1 {
+				construct = base + "#" + itoa(ord[base])
+			}
+			if why := c16IndexWhy(p, fn, loops, in.Block(), seq, idx); why != "" {
+				r.OK(rule, construct, p.pos(in.Pos()), why)
+				return
+			}
+			r.Viol(rule, construct, p.pos(in.Pos()), "the index "+describeVal(idx)+" is not bounded by the length of "+describeVal(seq)+" on the way here (it is neither the range index of that slice nor compared with its length): a shorter slice panics with index out of range")
+		})
+	}
+	r.Check(n >= 5, rule, "sites", "-", itoa(n)+" variable index expressions in resolution and validation", "expected at least 5 variable index expressions, found "+itoa(n))
+}
+
+func c16SameSeq(a, b ssa.Value) bool {
+	if a == b {
+		return true
+	}
+	da, db := describeVal(a), describeVal(b)
+	if da == "" || da != db {
+		return false
+	}
+	// names of temporaries (t12) say nothing; named things (params, fields of params, locals) do
+	if len(da) > 1 && da[0] == 't' && da[1] >= '0' && da[1] <= '9' {
+		return false
+	}
+	return true
+}
+
+func c16LenOf(v ssa.Value) ssa.Value {
+	if c, ok := v.(*ssa.Call); ok && isBuiltin(&c.Call, "len") {
+		return c.Call.Args[0]
+	}
+	return nil
+}
+
+// c16UpperBy: value v (an upper bound expression) is at most len(seq).
+func c16UpperBy(v ssa.Value, seq ssa.Value, b *ssa.BasicBlock, depth int) bool {
+	if depth > 3 {
+		return false
+	}
+	if s := c16LenOf(v); s != nil {
+		if c16SameSeq(s, seq) {
+			return true
+		}
+		// len(t) with a dominating len(t) == len(seq) or len(t) <= len(seq)
+		for _, g := range guardsAt(b) {
+			fg := flattenGuard(g)
+			bo, ok := fg.Cond.(*ssa.BinOp)
+			if !ok {
+				continue
+			}
+			lx, ly := c16LenOf(bo.X), c16LenOf(bo.Y)
+			if lx == nil || ly == nil {
+				continue
+			}
+			eq := bo.Op == token.EQL && fg.Pol || bo.Op == token.NEQ && !fg.Pol
+			if eq && (c16SameSeq(lx, s) && c16SameSeq(ly, seq) || c16SameSeq(ly, s) && c16SameSeq(lx, seq)) {
+				return true
+			}
+		}
+		return false
+	}
+	if c, ok := v.(*ssa.Call); ok && isBuiltin(&c.Call, "min") {
+		for _, a := range c.Call.Args {
+			if c16UpperBy(a, seq, b, depth+1) {
+				return true
+			}
+		}
+	}
+	if ph, ok := v.(*ssa.Phi); ok {
+		// n := len(a); if len(b) < n { n = len(b) }: each incoming value is at most len(seq) either outright or because of
+		// the comparison that selected it
+		for i, e := range ph.Edges {
+			if c16UpperBy(e, seq, b, depth+1) {
+				continue
+			}
+			pred := ph.Block().Preds[i]
+			gs := guardsAt(pred)
+			if iff, ok := lastInstr(pred).(*ssa.If); ok && pred.Succs[0] != pred.Succs[1] {
+				gs = append(gs, Guard{Cond: iff.Cond, Pol: pred.Succs[0] == ph.Block(), If: iff})
+			}
+			okEdge := false
+			for _, g := range gs {
+				fg := flattenGuard(g)
+				bo, isB := fg.Cond.(*ssa.BinOp)
+				if !isB {
+					continue
+				}
+				x, y, op := bo.X, bo.Y, bo.Op
+				if !fg.Pol {
+					op = negateOp(op)
+				}
+				// want: e <= (something at most len(seq))
+				if y == e || c16LenOf(y) != nil && c16LenOf(e) != nil && c16SameSeq(c16LenOf(y), c16LenOf(e)) {
+					x, y, op = y, x, mirrorOp(op)
+				}
+				same := x == e || c16LenOf(x) != nil && c16LenOf(e) != nil && c16SameSeq(c16LenOf(x), c16LenOf(e))
+				if same && (op == token.LSS || op == token.LEQ) && c16UpperBy(y, seq, b, depth+1) {
+					okEdge = true
+				}
+			}
+			if !okEdge {
+				return false
+			}
+		}
+		return len(ph.Edges) > 0
+	}
+	return false
+}
+
+// c16RangedSlices: the slices whose range loop l is and whose index idx is.
+func c16RangedSlices(l *loopInfo, idx ssa.Value) []ssa.Value {
+	var out []ssa.Value
+	iff, ok := lastInstr(l.Header).(*ssa.If)
+	if !ok {
+		return nil
+	}
+	cmp, ok := iff.Cond.(*ssa.BinOp)
+	if !ok {
+		return nil
+	}
+	if t := c16LenOf(cmp.Y); t != nil && isFullRangeLoopIdx(l, idx, t) {
+		out = append(out, t)
+	}
+	return out
+}
+
+// c16LenAtLeast: slice v has at least k elements at block b.
+func c16LenAtLeast(p *Prog, fn *ssa.Function, b *ssa.BasicBlock, v ssa.Value, k int64, depth int) (string, bool) {
+	if depth > 4 {
+		return "", false
+	}
+	if lenFactAtLeast(b, v, k) {
+		return "dominating length test", true
+	}
+	switch x := v.(type) {
+	case *ssa.MakeSlice:
+		if t := c16LenOf(x.Len); t != nil {
+			if why, ok := c16LenAtLeast(p, fn, b, t, k, depth+1); ok {
+				return "sized from a slice with " + why, true
+			}
+		}
+		if n, isK := constInt(x.Len); isK && n >= k {
+			return "made with constant length", true
+		}
+	case *ssa.Call:
+		if f := x.Call.StaticCallee(); f != nil && stdName(f) == "slices.Compact" && k <= 1 {
+			if why, ok := c16LenAtLeast(p, fn, b, x.Call.Args[0], 1, depth+1); ok {
+				return "slices.Compact of a non-empty slice (" + why + ")", true
+			}
+		}
+	case *ssa.Parameter:
+		if why, ok := c10CallersGuarantee(p, fn, x, k, 0); ok {
+			return "every caller passes that many (" + why + ")", true
+		}
+	}
+	return "", false
+}
+
+func c16IndexWhy(p *Prog, fn *ssa.Function, loops []*loopInfo, b *ssa.BasicBlock, seq, idx ssa.Value) string {
+	// (1) range index of the same slice
+	for _, l := range loops {
+		if !l.Body[b] {
+			continue
+		}
+		if isFullRangeLoopIdx(l, idx, seq) {
+			return "range index of the same slice"
+		}
+		// dst := make([]T, len(t)); for i := range t { dst[i] = … }
+		if ms, ok := seq.(*ssa.MakeSlice); ok {
+			if t := c16LenOf(ms.Len); t != nil {
+				hit := false
+				for _, cand := range c16RangedSlices(l, idx) {
+					if c16SameSeq(cand, t) {
+						hit = true
+					}
+				}
+				if hit {
+					return "range index of the slice this one was sized from (make(_, len(that)))"
+				}
+			}
+		}
+		// range over another slice t with len(t) bounded by len(seq)
+		if bo, ok := idx.(*ssa.BinOp); ok && bo.Op == token.ADD {
+			if iff, ok := lastInstr(l.Header).(*ssa.If); ok {
+				if cmp, ok := iff.Cond.(*ssa.BinOp); ok && cmp.Op == token.LSS && cmp.X == ssa.Value(bo) {
+					if t := c16LenOf(cmp.Y); t != nil && isFullRangeLoopIdx(l, idx, t) && c16UpperBy(cmp.Y, seq, b, 0) {
+						return "range index of a slice whose length was tested equal to this one's"
+					}
+				}
+			}
+		}
+	}
+	// (2) a dominating i < bound with bound <= len(seq), and i counts up from a non-negative start
+	for _, g := range guardsAt(b) {
+		fg := flattenGuard(g)
+		bo, ok := fg.Cond.(*ssa.BinOp)
+		if !ok {
+			continue
+		}
+		x, y, op := bo.X, bo.Y, bo.Op
+		if !fg.Pol {
+			op = negateOp(op)
+		}
+		if y == idx {
+			x, y, op = y, x, mirrorOp(op)
+		}
+		if x != idx || op != token.LSS {
+			continue
+		}
+		if c16UpperBy(y, seq, b, 0) && c16NonNegative(idx, 0) {
+			return "under " + describeVal(idx) + " < " + describeVal(y) + " with that bound at most the slice's length"
+		}
+	}
+	// (3) len(seq)-1 under len(seq) > 0
+	if bo, ok := idx.(*ssa.BinOp); ok && bo.Op == token.SUB {
+		if k, isK := constInt(bo.Y); isK && k >= 1 {
+			if s := c16LenOf(bo.X); s != nil && c16SameSeq(s, seq) {
+				if why, ok := c16LenAtLeast(p, fn, b, seq, k, 0); ok {
+					return "element counted from the end; the slice has at least " + itoa(int(k)) + " element(s): " + why
+				}
+			}
+		}
+	}
+	return ""
+}
+
+// c16NonNegative: a counter that starts at a non-negative constant (or a length) and only grows, or a range index.
+func c16NonNegative(v ssa.Value, depth int) bool {
+	if depth > 3 {
+		return false
+	}
+	if k, isK := constInt(v); isK {
+		return k >= 0
+	}
+	if c16LenOf(v) != nil {
+		return true
+	}
+	switch x := v.(type) {
+	case *ssa.Phi:
+		for _, e := range x.Edges {
+			if e == ssa.Value(x) {
+				continue
+			}
+			if bo, ok := e.(*ssa.BinOp); ok && bo.Op == token.ADD && (bo.X == ssa.Value(x) || c16NonNegative(bo.X, depth+1)) {
+				if k, isK := constInt(bo.Y); isK && k >= 0 {
+					continue
+				}
+			}
+			if k, isK := constInt(e); isK && k >= -1 && depth > 0 {
+				continue // the -1 start of a rotated range loop, seen through its increment
+			}
+			if !c16NonNegative(e, depth+1) {
+				return false
+			}
+		}
+		return true
+	case *ssa.BinOp:
+		if x.Op == token.ADD {
+			if k, isK := constInt(x.Y); isK && k >= 1 {
+				if ph, ok := x.X.(*ssa.Phi); ok {
+					// range index: phi [-1, phi+1] + 1
+					good := true
+					for _, e := range ph.Edges {
+						if k2, isK2 := constInt(e); isK2 && k2 >= -1 {
+							continue
+						}
+						if e == ssa.Value(x) {
+							continue
+						}
+						good = false
+					}
+					if good {
+						return true
+					}
+				}
+				return c16NonNegative(x.X, depth+1)
+			}
+		}
+	}
+	return false
+}
+
+// R16.2-edge-filter: the common-type cycle detector may leave a collected reference out of its graph only because the
+// reference does not name a common type (a miss in the common-type table). Any other filter — "this also resolves as an
+// entity", "already seen" — removes edges the inliner still follows (it tries the common-type table first), so a cycle
+// through such an edge goes unreported and the inliner then recurses without end.
+func c16EdgeFilter(p *Prog, r *Report) {
+	const rule = "R16.2-edge-filter"
+	fn := p.fn(pResolved, "resolverState.detectCommonTypeCycles")
+	if fn == nil {
+		r.Anchor(rule, "resolved.resolverState.detectCommonTypeCycles")
+		return
+	}
+	// the edge store: deps[name] = append(deps[name], resolved) on a map[Path][]Path made locally
+	var store *ssa.MapUpdate
+	forEachInstr(fn, func(in ssa.Instruction) {
+		mu, ok := in.(*ssa.MapUpdate)
+		if !ok {
+			return
+		}
+		mt, ok := mu.Map.Type().Underlying().(*types.Map)
+		if !ok {
+			return
+		}
+		if _, isSl := mt.Elem().Underlying().(*types.Slice); isSl {
+			if _, isMk := mu.Map.(*ssa.MakeMap); isMk {
+				store = mu
+			}
+		}
+	})
+	if store == nil {
+		r.Undec(rule, "resolved.resolverState.detectCommonTypeCycles:edge-store", p.pos(fn.Pos()), "the store that records a dependency edge was not found")
+		return
+	}
+	var loop *loopInfo
+	for _, l := range loopsOf(fn) {
+		if l.Body[store.Block()] && (loop == nil || len(l.Body) < len(loop.Body)) {
+			loop = l
+		}
+	}
+	if loop == nil {
+		r.Undec(rule, "resolved.resolverState.detectCommonTypeCycles:edge-store", p.pos(store.Pos()), "the edge store is not inside a loop over the collected references")
+		return
+	}
+	reach := func(from *ssa.BasicBlock) bool {
+		if from == loop.Header {
+			return false // next iteration: this reference is done with
+		}
+		seen := map[*ssa.BasicBlock]bool{}
+		work := []*ssa.BasicBlock{from}
+		for len(work) > 0 {
+			b := work[len(work)-1]
+			work = work[:len(work)-1]
+			if seen[b] || !loop.Body[b] {
+				continue
+			}
+			seen[b] = true
+			if b == store.Block() {
+				return true
+			}
+			for _, s := range b.Succs {
+				if s != loop.Header {
+					work = append(work, s)
+				}
+			}
+		}
+		return false
+	}
+	var bad []string
+	nFilters := 0
+	for b := range loop.Body {
+		iff, ok := lastInstr(b).(*ssa.If)
+		if !ok || b == loop.Header {
+			continue
+		}
+		r0, r1 := reach(b.Succs[0]), reach(b.Succs[1])
+		if r0 == r1 {
+			continue
+		}
+		nFilters++
+		g := flattenGuard(Guard{Cond: iff.Cond, Pol: true, If: iff})
+		good := false
+		if ex, ok := g.Cond.(*ssa.Extract); ok && ex.Index == 1 {
+			if lk, ok := ex.Tuple.(*ssa.Lookup); ok && lk.CommaOk {
+				if _, f := fieldAddrName(loadAddr(lk.X)); f == "commonTypes" {
+					good = true
+				}
+			}
+		}
+		if !good {
+			bad = append(bad, p.pos(iff.Cond.Pos()))
+		}
+	}
+	sort.Strings(bad)
+	r.Check(len(bad) == 0 && nFilters >= 1, rule, "resolved.resolverState.detectCommonTypeCycles:edge-filter", p.pos(store.Pos()),
+		"a collected reference is left out of the dependency graph only on a miss in the common-type table ("+itoa(nFilters)+" filter)",
+		"the cycle detector drops collected references on a condition other than a miss in the common-type table (at ["+strings.Join(bad, ", ")+"]; "+itoa(nFilters)+" filter(s) found): the inliner follows a reference whenever the common-type table has it, so a cycle through a dropped edge is not reported and resolution recurses until the stack overflows")
+}
+
+// loadAddr: the address a load reads from (nil otherwise).
+func loadAddr(v ssa.Value) ssa.Value {
+	if ld, ok := v.(*ssa.UnOp); ok && ld.Op == token.MUL {
+		return ld.X
+	}
+	return nil
 }
